@@ -13,6 +13,7 @@ NOT_DECIDED = [
     "that two literal leading characters cannot be consumed by a construct starting earlier (prose argument: every construct that gives a character non-literal meaning begins with a non-simple character, which stops the scan)",
 ]
 CONFIG_SENSITIVE = False
+DESUGAR = True
 
 NEW = "pattern::Pattern::new"
 MATCHES = "pattern::Pattern::matches"
@@ -59,11 +60,11 @@ def run(ctx):
             else:
                 er = unwrap_err(r)
                 ea = agg_variant(er) if er is not None else None
-                if ea:
+                if ea and not is_propagated_err(r):
                     out = ("Err", ea[1], {})
                 else:
                     src = "Dewey" if find_calls(r, "dewey::Dewey::new") else ("Glob" if find_calls(r, "glob::Pattern::new") else "?")
-                    out = ("Err", src, {}) if find_calls(r, "from_residual") else ("?", None, {})
+                    out = ("Err", src, {}) if is_propagated_err(r) else ("?", None, {})
             rows.append((conds, out, p))
         ctx.check(seen_chars == set(CHARS), "D1-DISPATCH", NEW, "metacharacters", "tests exactly { } > < * ? [ ]",
                   "Pattern::new tests %s; the dispatch rule uses %s" % (sorted(seen_chars), CHARS), fn_span(body))
@@ -94,10 +95,10 @@ def run(ctx):
             okc = True
             if name == "Dewey":
                 d = unwrap_some(flds.get("dewey"))
-                okc = d is not None and bool(find_calls(d, "dewey::Dewey::new")) and bool(find_calls(d, "Try>::branch")) and strip_refs(call_args(find_calls(d, "dewey::Dewey::new")[0])[0]) == ("param", 1)
+                okc = d is not None and bool(find_calls(d, "dewey::Dewey::new")) and has_try(d) and strip_refs(call_args(find_calls(d, "dewey::Dewey::new")[0])[0]) == ("param", 1)
             elif name == "Glob":
                 g = unwrap_some(flds.get("glob"))
-                okc = g is not None and bool(find_calls(g, "glob::Pattern::new")) and bool(find_calls(g, "Try>::branch")) and strip_refs(call_args(find_calls(g, "glob::Pattern::new")[0])[0]) == ("param", 1)
+                okc = g is not None and bool(find_calls(g, "glob::Pattern::new")) and has_try(g) and strip_refs(call_args(find_calls(g, "glob::Pattern::new")[0])[0]) == ("param", 1)
             lk = flds.get("likely")
             oklk = lk is None or const_of(lk) is False or (isinstance(lk, tuple) and lk[0] == "field" and is_call(lk[1], "Default>::default"))
             ctx.check(okt and okc and oklk, "D1-VALUE", NEW, "type=%s" % name, "%s: pattern text = input, matcher compiled from the input with `?`" % name,
